@@ -53,3 +53,10 @@ G('dm.dt_dadd_m', 'date-core', 'dt_dadd_m', ['C04'], ins=[('uint32_t', 'in_u'), 
   replace=['__ymd_add_m'] + UNR('__ymcw_add_m', '__bizda_add_m'), solvers=SV, sweep={'in_u': SWY, 'in_n': '(int)(RND % 2000) - 1000'})
 G('dm.dt_dadd_y', 'date-core', 'dt_dadd_y', ['C04'], ins=[('uint32_t', 'in_u'), ('int', 'in_n')], setup='struct dt_d_s d = {DT_DUNK}; d.typ = DT_YMD; d.u = in_u;', call='dt_dadd_y(d, in_n)', ret='struct dt_d_s',
   replace=['__ymd_add_y'] + UNR('__ymcw_add_y', '__bizda_add_y', '__ywd_add_y', '__yd_add_y'), solvers=SV, sweep={'in_u': SWY, 'in_n': '(int)(RND % 200) - 100'})
+for t in ('DT_YMD', 'DT_YD', 'DT_YWD', 'DT_DAISY'):
+    G('dm.dt_d_in_range_p.' + t[3:], 'date-core', 'dt_d_in_range_p', ['C08'], ins=[(U, 'in_typ'), ('uint32_t', 'in_u'), ('uint32_t', 'in_u1'), ('uint32_t', 'in_u2')], fix={'in_typ': t},
+      setup='struct dt_d_s d = {DT_DUNK}, d1 = {DT_DUNK}, d2 = {DT_DUNK}; d.typ = d1.typ = d2.typ = (dt_dtyp_t)in_typ; d.u = in_u; d1.u = in_u1; d2.u = in_u2;',
+      call='dt_d_in_range_p(d, d1, d2)', ret='int', replace=['dt_dcmp'], solvers=SV, timeout=600)
+for dow in range(1, 8):
+    G('dm.__get_nbdays.%d' % dow, 'date-core', '__get_nbdays', ['C07'], ins=[('int', 'in_dur'), (U, 'in_wd')], fix={'in_wd': str(dow)}, call='__get_nbdays(in_dur, (dt_dow_t)in_wd)', ret='int',
+      solvers=SV, timeout=600, sweep={'in_dur': '(int)(RND % 4000) - 2000'})
